@@ -88,6 +88,9 @@ def cases(tier, seed):
         out.append(dict(kind='concrete', cfg=dict(signature=sig, start_index=None), products=False, sample=3000 if len(sig) > 6 else 0))
     for name in ('2DPGA', '3DPGA', 'STAP'):
         out.append(dict(kind='concrete', cfg=dict(name=name), products=(name != 'STAP')))
+    # the one custom basis of the zero-dimensional algebra
+    out.append(dict(kind='concrete', cfg=dict(p=0, basis=['e']), products=True))
+    out.append(dict(kind='concrete', cfg=dict(signature=[], basis=['e']), products=True))
     # start indices for which a generator carries the label 'e' (14), the letter that also prefixes every blade name
     for cfg in (dict(p=3, start_index=12), dict(p=2, q=1, start_index=13), dict(p=4, start_index=11), dict(p=1, r=1, start_index=14), dict(p=3, r=1, start_index=12)):
         out.append(dict(kind='concrete', cfg=cfg, products=(sum(v for k, v in cfg.items() if k in 'pqr') <= 3)))
